@@ -6,12 +6,14 @@ package run
 //vf:job C17 quick VF_C17_Decode kind=0..5 par=1..2
 //vf:job C17 quick VF_C17_DecodeMany par=1..2
 //vf:job C17 thorough VF_C17_DecodeMany par=3
+//vf:job C17 thorough VF_C17_Decode kind=0..5 par=3
+//vf:job C17 thorough VF_C17_Decode kind=0,1,4 par=2 opt_preempt=2
 //vf:job C17 quick VF_C17_DecodeBig par=2
 //vf:replayE C17 VF_C17_Decode VF_C17_DecodeMany VF_C17_DecodeBig
-//vf:opt C17 preempt=1 thorough_preempt=2 delaybound=1
+//vf:opt C17 preempt=1 delaybound=1
 //vf:stub C17 encoding/json.Marshal: contract model (flat struct -> {"tag":value,...} in field order, strings NOT escaped, integers decimal, error iff a float is NaN/Inf as documented); utils.OpenReadFile/OpenWriteFile and (*os.File).Write/Close: in-memory output; utils.NewRDBLoader: pre-filled closed channel (the parser is C01); time.After: never fires
 //vf:assume C17 base64 on the specification side is encoding/base64 of the standard library (trusted); scores are compared through the trusted FormatFloat/ParseFloat round trip
-//vf:outside C17 JSON text production and escaping (that a printed line parses back as JSON): encoding/json is reflection based and not encodable; file I/O; progress output; more than 3 entries
+//vf:outside C17 JSON text production and escaping (that a printed line parses back as JSON): encoding/json is reflection based and not encodable; file I/O; progress output; more than 3 entries; schedules with more than one deviation from round-robin order except for the single-entry runs of the string, list and zset kinds on two workers (thorough)
 
 import (
 	"bufio"
